@@ -679,6 +679,8 @@ type pgProgGen struct {
 	illTyped bool // this program gets deliberate type errors (10 % per node)
 	redecl   bool // this program redeclares names on purpose
 	maxDepth int
+	c02      bool // bias for the optimizer check: constant sub-expressions, operator chains with constants, tick/ptick
+	tickN    int  // ids handed to tick(k, x)
 }
 
 func (g *pgProgGen) pick(n int) int          { return g.r.Pick(n) }
@@ -803,7 +805,11 @@ var pgFloatLits = []float64{0.5, 1.5, 2.25, 0.25, 8, 3, -0.5, 100.125, 0}
 
 func (g *pgProgGen) leaf(t *pgTy, e *pgGenv) *pgNode {
 	vars := e.visible(func(x *pgTy) bool { return pgTyEq(x, t) })
-	if len(vars) > 0 && g.chance(0.8) {
+	pv := 0.8
+	if g.c02 {
+		pv = 0.45 // more literals: constant sub-expressions for the optimizer
+	}
+	if len(vars) > 0 && g.chance(pv) {
 		return pgNId(vars[g.pick(len(vars))].name)
 	}
 	switch t.K {
@@ -863,6 +869,37 @@ func (g *pgProgGen) expr(t *pgTy, e *pgGenv, size int, allowLet bool) *pgNode {
 	}
 	if size <= 1 || e.depth > g.maxDepth+3 {
 		return g.leaf(t, e)
+	}
+	if g.c02 && size >= 3 && t.K != "err" {
+		c := g.pick(100)
+		switch {
+		case c < 6:
+			// tick(k, x): an impure host function that counts its calls and returns x
+			g.tickN++
+			return pgNCall("static", pgNId("tick"), pgNInt(int64(g.tickN)), g.expr(t, e, size-2, true))
+		case c < 8:
+			return pgNCall("static", pgNId("ptick"), pgNInt(0), g.expr(t, e, size-2, true))
+		case c < 16:
+			if size >= 5 {
+				return g.chain(t, e, size)
+			}
+		case c < 19:
+			// a pure built-in failing on constants must stay in the program (the fold is dropped, not replaced)
+			if size >= 4 {
+				var bad *pgNode
+				switch g.pick(4) {
+				case 0:
+					bad = g.staticCall(t, e, []string{"abs", "sqr", "sign", "int", "float"}, pgConstOf(g.oneOf([]string{"str", "bool", "list"}), g.pick(4)))
+				case 1:
+					bad = pgNMethod("method", pgNList(), g.oneOf([]string{"first", "last", "sum"}))
+				case 2:
+					bad = pgNOp(g.oneOf([]string{"%", "<<", "-", "<"}), pgConstOf("int", g.pick(5)), pgConstOf(g.oneOf([]string{"str", "bool", "map"}), g.pick(4)))
+				default:
+					bad = pgNIndex(pgNList(pgNInt(1)), pgNInt(int64(1+g.pick(3))))
+				}
+				return pgNTry(bad, g.expr(t, e, size-3, true))
+			}
+		}
 	}
 	// wrappers that exist for every type
 	for tries := 0; tries < 4; tries++ {
@@ -1574,6 +1611,105 @@ func (g *pgProgGen) staticCall(t *pgTy, e *pgGenv, names []string, args ...*pgNo
 	return pgNCall("static", pgNId(free[g.pick(len(free))]), args...)
 }
 
+// ---------- operator chains with constants (C02: folding and regrouping) ----------
+
+var pgAllOps = []string{"|", "&", "=", "!=", "~", "<", ">", "<=", ">=", "+", "-", "<<", ">>", "*", "%", "/", "^"}
+var pgConstKinds = []string{"int", "float", "str", "bool", "list", "map"}
+
+// a literal constant of the given kind (what the optimizer sees as a Const node after folding)
+func pgConstOf(kind string, variant int) *pgNode {
+	switch kind {
+	case "int":
+		return pgNInt([]int64{2, 3, 0, 7, 1}[variant%5])
+	case "float":
+		return pgNFloat([]float64{0.5, 2.5, 4, 0.25}[variant%4])
+	case "str":
+		return pgNStr([]string{"a", "b", "ab", ""}[variant%4])
+	case "bool":
+		return pgNId([]string{"true", "false"}[variant%2])
+	case "list":
+		if variant%2 == 0 {
+			return pgNList(pgNInt(1), pgNInt(2))
+		}
+		return pgNList(pgNInt(int64(variant)))
+	case "map":
+		if variant%2 == 0 {
+			return pgNMap([]string{"a"}, []*pgNode{pgNInt(1)})
+		}
+		return pgNMap([]string{"b"}, []*pgNode{pgNInt(int64(variant))})
+	}
+	panic("pgConstOf: " + kind)
+}
+
+// the three shapes in which two constants and one non-constant operand meet in a left-associative chain
+func pgChainShape(shape int, op string, c1, c2, x *pgNode) *pgNode {
+	switch shape % 3 {
+	case 0:
+		return pgNOp(op, pgNOp(op, c1, x), c2) // c op x op c
+	case 1:
+		return pgNOp(op, pgNOp(op, x, c1), c2) // x op c op c
+	}
+	return pgNOp(op, pgNOp(op, c1, c2), x) // c op c op x
+}
+
+// chain: mostly typed so that it evaluates (int, float, string, bool chains), otherwise any operator
+// with any two constant kinds (most of those are errors - with and without the optimizer alike)
+func (g *pgProgGen) chain(t *pgTy, e *pgGenv, size int) *pgNode {
+	xs := max(size-4, 1)
+	v := g.pick(20)
+	if g.chance(0.75) {
+		switch t.K {
+		case "int":
+			op := g.oneOf([]string{"+", "-", "*", "*", "&", "|", "%", "<<", "^"})
+			return pgChainShape(g.pick(3), op, pgConstOf("int", v), pgConstOf("int", v+1), g.expr(pgTInt, e, xs, false))
+		case "float":
+			op := g.oneOf([]string{"+", "-", "*", "*", "/"})
+			k1, k2 := g.oneOf([]string{"int", "float"}), g.oneOf([]string{"int", "float", "float"})
+			xt := pgTFloat
+			if g.chance(0.4) && (k1 == "float" || k2 == "float") {
+				xt = pgTInt
+			}
+			if k1 == "int" && k2 == "int" && xt == pgTInt && op != "/" {
+				k2 = "float"
+			}
+			return pgChainShape(g.pick(3), op, pgConstOf(k1, v), pgConstOf(k2, v+1), g.expr(xt, e, xs, false))
+		case "str":
+			xt := g.oneOf([]string{"str", "int", "bool"})
+			k2 := g.oneOf([]string{"str", "int", "bool"})
+			return pgChainShape(g.pick(2), "+", pgConstOf("str", v), pgConstOf(k2, v+1), g.expr(&pgTy{K: xt}, e, xs, false))
+		case "bool":
+			switch g.pick(3) {
+			case 0:
+				return pgChainShape(g.pick(3), g.oneOf([]string{"&", "|"}), pgConstOf("bool", v), pgConstOf("bool", v+1), g.expr(pgTBool, e, xs, false))
+			case 1:
+				op := g.oneOf([]string{"=", "!="})
+				return pgChainShape(g.pick(3), op, pgConstOf("bool", v), pgConstOf("bool", v+1), g.expr(pgTBool, e, xs, false))
+			default:
+				// (c1 < x) = c2 : a comparison folded into an equality chain
+				return pgNOp("=", pgNOp(g.cmpOp(), pgConstOf("int", v), g.expr(pgTInt, e, xs, false)), pgConstOf("bool", v))
+			}
+		case "list":
+			return pgChainShape(g.pick(3), "+", pgNList(g.leaf(t.Elem, &pgGenv{})), pgNList(), g.expr(t, e, xs, false))
+		}
+	}
+	op := g.oneOf(pgAllOps)
+	k1, k2 := g.oneOf(pgConstKinds), g.oneOf(pgConstKinds)
+	return pgChainShape(g.pick(3), op, pgConstOf(k1, v), pgConstOf(k2, v+1), g.expr(g.randomType(1), e, xs, false))
+}
+
+// pgEraseTicks: the tree with every call tick(k, x) / ptick(k, x) replaced by x (for the specification side)
+func pgEraseTicks(n *pgNode) *pgNode {
+	if n.K == "call" && len(n.Kids) == 3 && n.Kids[0].K == "ident" && (n.Kids[0].Name == "tick" || n.Kids[0].Name == "ptick") {
+		return pgEraseTicks(n.Kids[2])
+	}
+	c := *n
+	c.Kids = make([]*pgNode, len(n.Kids))
+	for i, k := range n.Kids {
+		c.Kids[i] = pgEraseTicks(k)
+	}
+	return &c
+}
+
 // ---------- argument values ----------
 
 var pgArgIntPool = []int64{0, 1, -1, 2, -2, 7, 63, 64, 1 << 31, 1<<53 - 1, 1 << 53, math.MinInt64, math.MaxInt64}
@@ -1654,8 +1790,13 @@ type pgProgram struct {
 var pgArgNamePool = []string{"x", "y", "z", "x", "y", "pi", "sqr"}
 
 func pgGenProgram(r *Rng, statics map[string]bool, maxNodes int) *pgProgram {
+	return pgGenProgramMode(r, statics, maxNodes, false)
+}
+
+// c02: the bias for the optimizer check (constants, chains, tick/ptick)
+func pgGenProgramMode(r *Rng, statics map[string]bool, maxNodes int, c02 bool) *pgProgram {
 	for {
-		g := &pgProgGen{r: r, statics: statics, maxDepth: 3}
+		g := &pgProgGen{r: r, statics: statics, maxDepth: 3, c02: c02}
 		stream := "well-typed"
 		c := r.Pick(100)
 		switch {
@@ -1700,7 +1841,9 @@ func pgGenProgram(r *Rng, statics map[string]bool, maxNodes int) *pgProgram {
 			rt = pgTInt
 		}
 		var tree *pgNode
-		if r.Chance(0.12) && budget >= 10 {
+		if c02 && r.Chance(0.2) {
+			tree = g.chain(g.scalarType(), env, budget)
+		} else if r.Chance(0.12) && budget >= 10 {
 			tree = g.curried(rt, env, budget)
 		} else {
 			tree = g.expr(rt, env, budget, true)
